@@ -6,5 +6,5 @@ VARIABLE x
 Init == x = 0
 Next == x' = x
 Spec == Init /\ [][Next]_x
-PrintPrograms == \A s \in Shapes : PrintT(<<"PROGRAM", ShapeKey(s), IoText(Run(Program(s, "none")).io)>>)
+PrintPrograms == \A s \in Shapes : PrintT(<<"PROGRAM", ShapeKey(s), IoText(Run(Program(s, "none")).io), IoText(Run(Program(s, "none")).tr)>>)
 =============================================================================
